@@ -176,6 +176,66 @@ def all_choices(ts):
     return [c for c in out if len(c) > 1]
 
 
+def prefix_pairs(rules):
+    """the stronger criterion (D118): an EARLIER alternative that parses a nesting construct completely before a mandatory element at which it
+    can still fail (`reassignment = reassignment_expr ~ "=" ~ value`: the whole `a.b(args)` path before the `=`), while a LATER alternative that can
+    start alike can parse the same construct again -- every statement of that shape is parsed twice per level of nesting."""
+    ment = {n: mentions(b) & set(rules) for n, b in rules.items()}
+
+    def closure(start, rel):
+        seen, st = set(), list(start)
+        while st:
+            x = st.pop()
+            if x in seen: continue
+            seen.add(x); st += list(rel[x])
+        return seen
+    def elems_of(ts):
+        elems=[]; i=0
+        while i<len(ts):
+            t=ts[i]
+            if t=="(":
+                d=1;j=i+1
+                while d: d+=(ts[j]=="(")-(ts[j]==")"); j+=1
+                opt = j<len(ts) and ts[j] in ("?","*")
+                elems.append((ts[i+1:j-1],opt,True)); i=j+(1 if (j<len(ts) and ts[j] in ("?","*","+")) else 0); continue
+            if t=="~": i+=1; continue
+            if t in ("!","&"):
+                i+=1
+                if i<len(ts) and ts[i]=="(":
+                    d=1;i+=1
+                    while d: d+=(ts[i]=="(")-(ts[i]==")"); i+=1
+                else: i+=1
+                continue
+            opt = i+1<len(ts) and ts[i+1] in ("?","*")
+            elems.append(([t],opt,False)); i+=1+(1 if (i+1<len(ts) and ts[i+1] in ("?","*","+")) else 0)
+        return elems
+    def reparse(ts, seen=frozenset()):
+        """nonterminals whose text an alternative may have parsed completely before it fails"""
+        elems=elems_of(ts)
+        mand=[k for k,(e,o,g) in enumerate(elems) if not o]
+        out=set()
+        if not mand:
+            return out
+        L=mand[-1]
+        for e,o,g in elems[:L]:
+            out|={t for t in e if re.match(r"[A-Za-z_]",t)} & set(rules)
+        # a lone nonterminal (the alternative IS that rule): its own sequences decide
+        if len([1 for x in elems if not x[1]]) == 1 and len(elems) == 1 and not elems[0][2] and elems[0][0][0] in rules and elems[0][0][0] not in seen:
+            for a in split_alts(rules[elems[0][0][0]]): out|=reparse(a,seen|{elems[0][0][0]})
+        return out
+    bad = []
+    for n, b in rules.items():
+        for alts in all_choices(b):
+            for k, a in enumerate(alts):
+                for e in alts[:k]:
+                    if firstterms(a, rules) & firstterms(e, rules):
+                        se = closure(reparse(e), ment); sa = closure(mentions(a) & set(rules), ment)
+                        w = {x for x in se & sa if n in closure([x], ment)}
+                        if w:
+                            bad.append(f"rule `{n}`: `{' '.join(e)[:50]}` is tried before `{' '.join(a)[:50]}`; both can start alike, and before the earlier one can fail it has parsed a construct that can contain `{n}` again (e.g. {', '.join(sorted(w)[:4])})")
+    return bad
+
+
 def build(repo):
     log = []
     rules = parse_rules(open(os.path.join(repo, FILE), encoding="utf-8").read())
@@ -246,7 +306,13 @@ pub open spec fn mentions(a: int, b: int) -> bool {{
 }} // verus!
 fn main() {{}}
 """
-    return gen, [Obl("C16.grammar.no-reparse-of-nesting-alternative", ["C16"], fn=f"grammar.pest ({len(pairs)} pairs of alternatives)", desc="two alternatives of an ordered choice that can start with the same terminal never both begin with a rule that can contain the choice again (each level of nesting would be parsed twice when the input fails inside: 2^depth)")], log
+    pp = prefix_pairs(rules)
+    o2 = Obl("C16.grammar.no-reparse-of-nesting-prefix", ["C16"], engine="finite computation over the rule graph of grammar.pest (python)", fn="grammar.pest (prefixes of alternatives)",
+             desc="no alternative of an ordered choice parses a nesting construct completely before a point where it can still fail while a later alternative that starts alike can parse that construct again (known finding D118: `reassignment` before `value` / `assignment` in `declaration`)")
+    o2.status = "failed" if pp else "discharged"
+    o2.detail = "\n".join(pp)
+    o2.pre_decided = True
+    return gen, [o2, Obl("C16.grammar.no-reparse-of-nesting-alternative", ["C16"], fn=f"grammar.pest ({len(pairs)} pairs of alternatives)", desc="two alternatives of an ordered choice that can start with the same terminal never both begin with a rule that can contain the choice again (each level of nesting would be parsed twice when the input fails inside: 2^depth)")], log
 
 
 UNITS = [VUnit("c16_grammar", ["C16"], "the grammar does not parse a nesting construct twice", build)]
